@@ -199,34 +199,40 @@ namespace C13
 structure St where
   polled : Bool := false        -- an abort poll since the last op / sleeper answer / start
   aborted : Bool := false       -- a poll answered True, or the operation raised AbortRetryError
-  cancelled : Option Exn := none   -- op / sleeper raised a cancellation-type exception
+  cancelled : Option Exn := none   -- the first cancellation-type exception raised by any callback
   bad : Bool := false
 
-def step (cfg : Cfg) (s : St) (x : Req × Ans) : St :=
-  -- after a cancellation nothing but breaker bookkeeping may happen
-  let s := match s.cancelled, x.1 with
-    | some _, .breakerSuccess | some _, .breakerFailure _ | some _, .breakerCancel => s
-    | some _, _ => { s with bad := true }
-    | none, _ => s
+/-- the part of a step that concerns polls, attempts, sleeps and aborts (no cancellation yet) -/
+def stepLive (cfg : Cfg) (s : St) (x : Req × Ans) : St :=
   match x.1, x.2 with
   | .abortIf, .bool true _ => { s with polled := true, aborted := true }
   | .abortIf, _ => { s with polled := true }
   | .op _, a =>
     let s := { s with bad := s.bad || s.aborted || (cfg.abortIf && !s.polled), polled := false }
     match a with
-    | .raise e _ =>
-      if e.isAbort then { s with aborted := true }
-      else if e.isCancelKind then { s with cancelled := some e }
-      else s
+    | .raise e _ => if e.isAbort then { s with aborted := true } else s
     | _ => s
-  | .sleeper .., a =>
+  | .sleeper .., _ =>
     -- a poll is due again after the sleep: "before every attempt" includes the attempt that
     -- follows a backoff sleep
-    let s := { s with bad := s.bad || s.aborted || (cfg.abortIf && !s.polled), polled := false }
-    match a with
-    | .raise e _ => if e.isCancelKind then { s with cancelled := some e } else s
-    | _ => s
+    { s with bad := s.bad || s.aborted || (cfg.abortIf && !s.polled), polled := false }
   | _, _ => s
+
+def step (cfg : Cfg) (s : St) (x : Req × Ans) : St :=
+  -- breaker bookkeeping (`record_success / record_failure / record_cancel`) never moves the monitor:
+  -- it is what `except CancelledError: record_cancel` and `finally: ensure_settled` do on the way out
+  if Mon.isRecord x.1 then s
+  else match s.cancelled with
+    -- after a cancellation nothing else may happen: no classification, retry, sleep, hook or event
+    | some _ => { s with bad := true }
+    | none =>
+      let s := stepLive cfg s x
+      -- a cancellation-type exception delivered at ANY callback (the operation, a sleep, the abort
+      -- predicate, an attempt hook, a classifier, a strategy, a sleep handler, a before-sleep hook,
+      -- a metric or log hook): every await point of an async run is one of these
+      match x.2 with
+      | .raise e _ => if e.isCancelKind then { s with cancelled := some e } else s
+      | _ => s
 
 def run (cfg : Cfg) (t : Trace) : St := t.foldl (step cfg) {}
 
@@ -440,6 +446,17 @@ end C03
 
 namespace C05
 
+/-
+  The monitor runs over `retryTrace t` (the log minus the breaker-admission prelude: the retry clock
+  starts when `_RetryState` is created, after admission).  Guards (`ok` is `true` without looking):
+  * `hasLoop cfg e` false — a `Policy` without a retry component never computes a delay;
+  * in `resOk` only: a `RetryExhaustedError` *object that a callback raised* says nothing about this run
+    (model-only: the model's oracle can hand the library's own exception values to callbacks).
+  No guard for raising attempt hooks / `abort_if`: the attempt number is counted as the loop counts it
+  (an attempt begins with the operation's invocation, or — in `execute()`, when an attempt hook raised
+  before the operation could be invoked — with the classification of that error).
+-/
+
 /-- Monitor state.  One violation flag per conjunct of the property. -/
 structure St where
   now : Nat := 0                     -- time elapsed on the retry clock
@@ -509,7 +526,10 @@ def step (cfg : Cfg) (s : St) (x : Req × Ans) : St :=
   | .strategy key kind ctx => stratStep cfg s t key kind ctx x.2
   | .metric ev _ sl _ => if ev = .retry then consume s sl else s
   | .log ev _ sl _ _ => if ev = .retry then consume s sl else s
-  | .budgetConsume => (match x.2 with
+  | .budgetConsume =>
+    -- the budget is consulted for the retry the (one) strategy call of this attempt priced
+    let s := { s with badCount := s.badCount || !(s.strats == 1) }
+    (match x.2 with
       | .granted true => { s with prev := s.delay }
       | _ => s)
   | .sleepHandler _ _ d => consume s d
@@ -545,6 +565,14 @@ def ok : Monitor := fun cfg e t r =>
 end C05
 
 namespace C16
+
+/-
+  Windows are delimited by GRANTS (the strategy answered and — with a budget — a token was granted), not
+  by operation invocations, so raising attempt hooks need no guard.  Guards:
+  * `hasLoop cfg e` false — no retry component, no sleep protocol;
+  * `e == .stuck` in `replaced`: the model's "ill-shaped / missing oracle answer" (never in the
+    implementation).
+-/
 
 /-- Monitor state.  One violation flag per conjunct of the property. -/
 structure St where
@@ -651,7 +679,17 @@ def abortOk : Monitor := fun cfg e t r =>
 def otherOk : Monitor := fun cfg e t r =>
   !hasLoop cfg e || ((!(run cfg t).badStop || (run cfg t).stopped != some .other) && resMatches (run cfg t) .other r)
 def levelOk : Monitor := fun cfg e t _ => !hasLoop cfg e || !(run cfg t).badLevel
-def skipOk : Monitor := fun cfg e t _ => !hasLoop cfg e || !(run cfg t).badSkip
+/-- the run ended by an error or as ABORTED -/
+def cutShort : Res → Bool
+  | .raised _ => true
+  | .outcome o _ => o.stop == some .aborted
+  | .ret _ => false
+
+/-- a granted retry sleeps before anything else happens — and a run in which a granted retry's sleep is
+    still due (and no stop decision was taken) can only have been cut short by an error or an abort -/
+def skipOk : Monitor := fun cfg e t r =>
+  !hasLoop cfg e ||
+    (!(run cfg t).badSkip && (!((run cfg t).pending && (run cfg t).stopped.isNone) || cutShort r))
 
 def ok : Monitor := fun cfg e t r =>
   handlerOk cfg e t r && sleepOk cfg e t r && deferOk cfg e t r && abortOk cfg e t r && otherOk cfg e t r
